@@ -16,6 +16,7 @@ package main
 
 import (
 	"fmt"
+	"runtime/debug"
 	"sync"
 	"sync/atomic"
 	"time"
@@ -48,7 +49,9 @@ var cut int32
 func expired(r *common.Run, what string) bool {
 	if atomic.LoadInt32(&cut) != 0 || r.Expired() {
 		atomic.StoreInt32(&cut, 1)
-		cutOnce.Do(func() { r.Incomplete("soft deadline reached in section: " + what + " (this and the later sections are partial)") })
+		cutOnce.Do(func() {
+			r.Incomplete("soft deadline reached in section: " + what + " (this and the later sections are partial)")
+		})
 		return true
 	}
 	return false
@@ -78,6 +81,10 @@ func guarded(r *common.Run, entry string, input func() map[string]any, f func())
 
 func main() {
 	r := common.Start("C15", "model_checking")
+	// The live heap is a few MB while every case allocates (error values, io.Copy's 32 KiB buffer):
+	// collect at a 1 GiB soft limit instead of every few MB (39k collections -> a few dozen).
+	debug.SetGCPercent(-1)
+	debug.SetMemoryLimit(1 << 30)
 	parseUintShort(r)
 	parseUintBoundaries(r)
 	hexChecks(r)
